@@ -51,92 +51,97 @@ pub fn run(ctx: &mut Ctx) {
         };
         let sorted = crng.chance(2, 3);
         let graph = crng.below(5);
-        // unique keys, shuffled
-        let mut keys: Vec<u64> = (0..ne as u64).map(|i| i * 3 + 1).collect();
-        for i in (1..keys.len()).rev() {
-            let j = crng.below(i as u64 + 1) as usize;
-            keys.swap(i, j);
-        }
-        // insertion orders a sort has nothing (or everything) to do about: already in key order, reversed,
-        // in key order but for one late entry
-        match case % 16 {
-            5 | 6 => keys.sort(),
-            13 => {
-                keys.sort();
-                keys.reverse();
-            }
-            14 => {
-                keys.sort();
-                if keys.len() > 2 {
-                    let k0 = keys.remove(0);
-                    keys.push(k0);
-                }
-            }
-            _ => {}
-        }
-        let mut entries = vec![];
-        for k in 0..ne {
-            let target = match graph {
-                0 => k,                                  // self
-                1 => (k + 1) % ne,                       // forward chain (last wraps back)
-                2 => (k + ne - 1) % ne,                  // backward chain
-                3 => 0,                                  // everybody points to the first added
-                _ => crng.below(ne as u64) as usize,     // random
-            };
-            entries.push(EntrySpec { variant: None, values: vec![("p0", V::U(keys[k])), ("p1", V::Ref(target)), ("p2", V::Ref(crng.below(ne as u64) as usize))] });
-        }
-        let spec = DirSpec {
-            stores: vec![],
-            common: vec![("p0", PDef::UInt), ("p1", PDef::UInt), ("p2", PDef::UInt)],
-            variants: vec![],
-            sort_keys: if sorted { Some(vec!["p0"]) } else { None },
-            entries,
-            indexes: vec![IndexSpec { name: "all".into(), offset: 0, count: ne as u32 }],
-            label: format!("refs-{}-{}", if sorted { "sorted" } else { "unsorted" }, ["self", "forward", "backward", "star", "random"][graph as usize]),
-        };
-        let dir = ctx.work.join(format!("dp-{}", case));
-        let built = match util::guarded(|| dirgen::build(&dir, &spec)) {
-            Ok(Ok(b)) => b,
-            other => {
-                ctx.fail(case, "create", &format!("creation failed: {:?}", other.err()));
-                continue;
-            }
-        };
-        // final positions: sorted by key, or insertion order
-        let mut order: Vec<usize> = (0..ne).collect();
-        if sorted {
-            order.sort_by_key(|i| keys[*i]);
-        }
-        let mut pos_of = vec![0u64; ne];
-        for (p, e) in order.iter().enumerate() {
-            pos_of[*e] = p as u64;
-        }
-        for (k, b) in built.bounds.iter().enumerate() {
-            if *b as u64 != pos_of[k] {
-                ctx.fail(case, "bound", &format!("{}: handle of the entry added #{k} (key {}) reports position {} after finalize; its key is stored at position {}", spec.label, keys[k], b, pos_of[k]));
-                break;
-            }
-        }
-        let expected = dirgen::expected_dump(&spec, &order, &|t| pos_of[t]);
-        let got = dirgen::dump(&built.path, &spec);
-        if got != expected {
-            let ge: Vec<&str> = got.split(|c| c == ';' || c == '{' || c == '}').collect();
-            let ee: Vec<&str> = expected.split(|c| c == ';' || c == '{' || c == '}').collect();
-            let k = ge.iter().zip(ee.iter()).position(|(a, b)| a != b).unwrap_or(0);
-            ctx.fail(case, "reference-value", &format!("{}: stored entry #{} reads `{}`, expected `{}` (p1/p2 = final positions of the referenced entries; {} entries)", spec.label, k.saturating_sub(1), ge.get(k).unwrap_or(&"").chars().take(120).collect::<String>(), ee.get(k).unwrap_or(&"").chars().take(120).collect::<String>(), ne));
-        }
-        let size = std::fs::metadata(&built.path).map(|m| m.len()).unwrap_or(0);
-        ctx.emit(case, &format!("dp.decode {} 0 {}", built.path.display(), size), &got);
-        let specfile = dir.join("spec.txt");
-        dirgen::write_spec_file(&specfile, &spec, &order, &|t| pos_of[t]);
-        ctx.emit(case, &format!("dp.encode {} 0 {} {}", built.path.display(), size, specfile.display()), "same");
-        ctx.count(&format!("label:{}", spec.label));
-        ctx.add("entries", ne as u64);
-        ctx.sample(format!("{} entries={} first refs={:?}", spec.label, ne, spec.entries.iter().take(5).map(|e| &e.values[1]).collect::<Vec<_>>()));
-        ctx.case_done(fnv(format!("{:?}", spec.entries.iter().map(|e| &e.values).collect::<Vec<_>>()).as_bytes()) ^ case, ne > 1);
+        refs_case(ctx, case, &mut crng, ne, sorted, graph, case % 16);
     }
 }
 
+/// one entry store with a unique key and two reference properties (used by C15, and by C14 for the
+/// "logical content written" of deferred values)
+pub fn refs_case(ctx: &mut Ctx, case: u64, crng: &mut Rng, ne: usize, sorted: bool, graph: u64, key_order: u64) {
+    // unique keys, shuffled
+    let mut keys: Vec<u64> = (0..ne as u64).map(|i| i * 3 + 1).collect();
+    for i in (1..keys.len()).rev() {
+        let j = crng.below(i as u64 + 1) as usize;
+        keys.swap(i, j);
+    }
+    // insertion orders a sort has nothing (or everything) to do about: already in key order, reversed,
+    // in key order but for one late entry
+    match key_order {
+        5 | 6 => keys.sort(),
+        13 => {
+            keys.sort();
+            keys.reverse();
+        }
+        14 => {
+            keys.sort();
+            if keys.len() > 2 {
+                let k0 = keys.remove(0);
+                keys.push(k0);
+            }
+        }
+        _ => {}
+    }
+    let mut entries = vec![];
+    for k in 0..ne {
+        let target = match graph {
+            0 => k,                                  // self
+            1 => (k + 1) % ne,                       // forward chain (last wraps back)
+            2 => (k + ne - 1) % ne,                  // backward chain
+            3 => 0,                                  // everybody points to the first added
+            _ => crng.below(ne as u64) as usize,     // random
+        };
+        entries.push(EntrySpec { variant: None, values: vec![("p0", V::U(keys[k])), ("p1", V::Ref(target)), ("p2", V::Ref(crng.below(ne as u64) as usize))] });
+    }
+    let spec = DirSpec {
+        stores: vec![],
+        common: vec![("p0", PDef::UInt), ("p1", PDef::UInt), ("p2", PDef::UInt)],
+        variants: vec![],
+        sort_keys: if sorted { Some(vec!["p0"]) } else { None },
+        entries,
+        indexes: vec![IndexSpec { name: "all".into(), offset: 0, count: ne as u32 }],
+        label: format!("refs-{}-{}", if sorted { "sorted" } else { "unsorted" }, ["self", "forward", "backward", "star", "random"][graph as usize]),
+    };
+    let dir = ctx.work.join(format!("dp-{}", case));
+    let built = match util::guarded(|| dirgen::build(&dir, &spec)) {
+        Ok(Ok(b)) => b,
+        other => {
+            ctx.fail(case, "create", &format!("creation failed: {:?}", other.err()));
+            return;
+        }
+    };
+    // final positions: sorted by key, or insertion order
+    let mut order: Vec<usize> = (0..ne).collect();
+    if sorted {
+        order.sort_by_key(|i| keys[*i]);
+    }
+    let mut pos_of = vec![0u64; ne];
+    for (p, e) in order.iter().enumerate() {
+        pos_of[*e] = p as u64;
+    }
+    for (k, b) in built.bounds.iter().enumerate() {
+        if *b as u64 != pos_of[k] {
+            ctx.fail(case, "bound", &format!("{}: handle of the entry added #{k} (key {}) reports position {} after finalize; its key is stored at position {}", spec.label, keys[k], b, pos_of[k]));
+            break;
+        }
+    }
+    let expected = dirgen::expected_dump(&spec, &order, &|t| pos_of[t]);
+    let got = dirgen::dump(&built.path, &spec);
+    if got != expected {
+        let ge: Vec<&str> = got.split(|c| c == ';' || c == '{' || c == '}').collect();
+        let ee: Vec<&str> = expected.split(|c| c == ';' || c == '{' || c == '}').collect();
+        let k = ge.iter().zip(ee.iter()).position(|(a, b)| a != b).unwrap_or(0);
+        ctx.fail(case, "reference-value", &format!("{}: stored entry #{} reads `{}`, expected `{}` (p1/p2 = final positions of the referenced entries; {} entries)", spec.label, k.saturating_sub(1), ge.get(k).unwrap_or(&"").chars().take(120).collect::<String>(), ee.get(k).unwrap_or(&"").chars().take(120).collect::<String>(), ne));
+    }
+    let size = std::fs::metadata(&built.path).map(|m| m.len()).unwrap_or(0);
+    ctx.emit(case, &format!("dp.decode {} 0 {}", built.path.display(), size), &got);
+    let specfile = dir.join("spec.txt");
+    dirgen::write_spec_file(&specfile, &spec, &order, &|t| pos_of[t]);
+    ctx.emit(case, &format!("dp.encode {} 0 {} {}", built.path.display(), size, specfile.display()), "same");
+    ctx.count(&format!("label:{}", spec.label));
+    ctx.add("entries", ne as u64);
+    ctx.sample(format!("{} entries={} first refs={:?}", spec.label, ne, spec.entries.iter().take(5).map(|e| &e.values[1]).collect::<Vec<_>>()));
+    ctx.case_done(fnv(format!("{:?}", spec.entries.iter().map(|e| &e.values).collect::<Vec<_>>()).as_bytes()) ^ case, ne > 1);
+}
 
 type BE = jubako::creator::BasicEntry<&'static str, &'static str>;
 
